@@ -374,6 +374,13 @@ def check_structured(cx, http, DS, rng, cfg):
         d = http.dump_header(items)
         rec.nontrivial(("list", tuple(items)))
         cx.eq("list", items, d, http.parse_list_header(d), items)
+        # the items in any iterable spelling (the parameter is an Iterable): tuple, one-shot iterators, a dict's keys view
+        shape = rng.choice(["tuple", "iter", "generator", "map", "reversed", "keys"])
+        src = {"tuple": tuple(items), "iter": iter(items), "generator": (x for x in items), "map": map(str, items), "reversed": reversed(items[::-1]), "keys": dict.fromkeys(items).keys()}[shape]
+        want_items = list(dict.fromkeys(items)) if shape == "keys" else items
+        d_it = http.dump_header(src)
+        rec.observe("lists_given_as_other_iterables")
+        cx.eq("list", (shape, items), d_it, http.parse_list_header(d_it), want_items, "C06/list-from-iterable")
         keys = ["k", "K2", "x-y", "a.b", "z_"]
         dv = {k: (rand_str(rng, 5) if rng.random() < 0.85 else None) for k in rng.sample(keys, rng.randint(0, 4))}
         d = http.dump_header(dv)
